@@ -365,9 +365,9 @@ def generate(rng, idx, tier, variant):
             g['names'][0].append((rn, 'float'))
     n_ops = rng.randint(5, 40 if tier == 'thorough' else 24)
     W = {
-        'container': {'add_variable': 3, 'setattr': 5, 'setitem': 3, 'setitem_label': 2, 'setitem_slice': 2, 'set_pos': 2, 'replace_values': 2, 'set_values': 2, 'add_attribute': 1, 'set_attr_plain': 2, 'set_strict': 1, 'get': 2, 'spawn': 0.5, 'reindex': 0.3},
+        'container': {'add_variable': 3, 'setattr': 5, 'setitem': 3, 'setitem_label': 2, 'setitem_slice': 2, 'set_pos': 2, 'replace_values': 2, 'set_values': 2, 'add_attribute': 1, 'set_attr_plain': 2, 'set_strict': 1, 'get': 2, 'spawn': 0.5, 'reindex': 0.3, 'eval_nested': 0.8},
         'labels': {'add_variable': 1, 'setattr': 1, 'setitem_label': 6, 'setitem_slice': 6, 'set_pos': 2, 'get': 4, 'setitem': 1, 'reindex': 1.5, 'reuse_key': 3, 'spawn': 0.5, 'add_attribute': 0.6},
-        'copies': {'mutate_any': 5, 'add_variable': 2, 'setattr': 3, 'setitem_label': 1, 'setitem_slice': 1, 'set_pos': 3, 'replace_values': 1, 'set_values': 1, 'add_attribute': 1, 'set_attr_plain': 2, 'set_strict': 1, 'spawn': 5, 'mutate_list': 5, 'solve': 2, 'sub_poke': 2, 'reindex': 0.5, 'eval_name': 2.5},
+        'copies': {'mutate_any': 5, 'add_variable': 2, 'setattr': 3, 'setitem_label': 1, 'setitem_slice': 1, 'set_pos': 3, 'replace_values': 1, 'set_values': 1, 'add_attribute': 1, 'set_attr_plain': 2, 'set_strict': 1, 'spawn': 5, 'mutate_list': 5, 'solve': 2, 'sub_poke': 2, 'reindex': 0.5, 'eval_name': 2.5, 'eval_nested': 1.5},
         'reindex': {'mutate_any': 2, 'add_attribute': 2, 'add_variable': 3, 'setattr': 3, 'set_pos': 2, 'setitem_slice': 1, 'get': 1, 'reuse_key': 1, 'reindex': 6, 'solve': 2, 'set_strict': 1, 'spawn': 0.5, 'set_attr_plain': 1.5},
     }[variant]
     kinds, weights = zip(*sorted(W.items()))
@@ -494,6 +494,12 @@ def generate(rng, idx, tier, variant):
             pool_ = sorted({nm_ for lst in g['names'].values() for nm_, _dt in lst if nm_.isidentifier()})
             if pool_:
                 ops.append({'op': 'eval_name', 'obj': p, 'name': rng.choice(pool_), 'fail': rng.random() < 0.4})
+        elif kind == 'eval_nested':
+            # a function named in an eval() expression calls back into the library (re-entrant use): another object's (or
+            # this object's) eval(), the strict switch, add_variable
+            pool_ = sorted({nm_ for lst in g['names'].values() for nm_, _dt in lst if nm_.isidentifier()})
+            if pool_:
+                ops.append({'op': 'eval_nested', 'obj': p, 'how': rng.choice(['other_eval', 'other_eval', 'self_eval', 'toggle_strict', 'toggle_strict', 'add_variable']), 'other': rng.randrange(MAXP), 'name': rng.choice(pool_), 'k': rng.randrange(1000)})
         elif kind == 'get':
             if not names:
                 continue
@@ -1480,6 +1486,69 @@ def execute(schedule, ctx):
                 # a name only another object owns: nothing of that object may be visible here
                 ctx.probe('eval-of-a-name-only-another-party-owns')
                 ctx.check('C11', 'eval/resolved-a-name-it-does-not-own', e is not None, {'name': nm, 'got': canon(np.asarray(res[0]).tolist()) if res else None})
+            outcome = 'raised' if e is not None else 'ok'
+
+        elif kind == 'eval_nested':
+            how = op['how']
+            other = parties[op['other'] % len(parties)].obj
+            nm = op['name']
+            got = {}
+
+            def direct(obj):
+                try:
+                    return ('value', canon(np.asarray(obj.eval(nm)).tolist()))
+                except Exception as ex_:
+                    return ('raise', type(ex_).__name__)
+
+            if how == 'other_eval':
+                want = direct(other)  # what the other object's eval() does when it is not nested in anything
+
+                def f():
+                    got['r'] = direct(other)
+                    return 1.0
+            elif how == 'self_eval':
+                want = direct(x)
+
+                def f():
+                    got['r'] = direct(x)
+                    return 1.0
+            elif how == 'toggle_strict':
+                want = not d['_strict']
+
+                def f():
+                    x.strict = not x.strict
+                    return 1.0
+            else:
+                newname = 'EV%d' % op['k']
+                want = newname
+
+                def f():
+                    if newname not in x.__dict__['index']:
+                        x.add_variable(newname, 1.5)
+                        got['r'] = newname
+                    return 1.0
+
+            res = []
+            e = attempt(lambda: res.append(x.eval('f() + 1', locals={'f': f})))
+            ctx.probe('eval-with-a-function-that-calls-back:' + how)
+            ctx.fault('callback-into-library')
+            ctx.check('C09', 'eval/expression-with-callback-evaluates', e is None and res and float(np.asarray(res[0])) == 2.0, {'exc': type(e).__name__ if e else None, 'how': how})
+            if how in ('other_eval', 'self_eval') and 'r' in got:
+                ctx.check('C11', 'eval/nested-eval-sees-what-a-plain-eval-sees', got['r'] == want, {'nested': got['r'], 'plain': want, 'name': nm, 'on': 'another object' if how == 'other_eval' else 'the same object'})
+            elif how == 'toggle_strict' and e is None:
+                ctx.check('C09', 'strict/set-from-inside-eval-is-kept', d['_strict'] is want, {'strict': d['_strict'], 'want': want})
+                if d['_strict'] is not want:
+                    x.strict = want
+                before[i] = O.obs(x)  # (the switch moved, by its own setter)
+            elif how == 'add_variable' and got.get('r'):
+                arr_ = d.get('_' + newname)
+                ok_ = newname in d['index'] and isinstance(arr_, np.ndarray) and arr_.shape == (n,) and ('names' not in d or newname in d['names'])
+                ctx.check('C09', 're-entrant-write/added-variable-kept', ok_, {'name': newname, 'outer': 'eval'})
+                if ok_ and newname not in party.order:
+                    party.order.append(newname)
+                    party.ref[newname] = arr_.copy()
+                    party.dtypes[newname] = arr_.dtype
+                before[i] = O.obs(x)
             outcome = 'raised' if e is not None else 'ok'
 
         elif kind == 'set_strict':
